@@ -68,7 +68,7 @@ REQUIRED = dict(
               'binned=binner(stored-native)', 'binned-tau=binner(tau)', 'tau-presence',
               'model-written', 'model-reloaded', 'reload-classes', 'reload-parameter-names', 'reload-parameters',
               'reload-spectrum', 'reload-spectrum-original-order', 'reload-leaves-file-untouched'],
-    classes=['leaf:float', 'leaf:int', 'leaf:npfloat', 'leaf:npint', 'leaf:bool', 'leaf:array', 'leaf:string',
+    classes=['same-binner:same-size-and-ends', 'same-binner:other-size', 'leaf:float', 'leaf:int', 'leaf:npfloat', 'leaf:npint', 'leaf:bool', 'leaf:array', 'leaf:string',
              'leaf:numlist', 'leaf:numtuple', 'leaf:nestlist', 'leaf:strlist', 'leaf:strtuple', 'leaf:dictlist',
              'leaf:raggedlist', 'strlist-element-outside-S64-ascii',
              'array-rank:0', 'array-rank:1', 'array-rank:2', 'array-rank:3', 'depth:4', 'append',
@@ -570,10 +570,10 @@ def judge_spectrum_group(ctx, content, base, binner, kind, decl, size, result, w
         ctx.close('binned-tau=binner(tau)', btau, binner.bindown(wn, np.asarray(result[2]))[1], 1e-14, **wit)
 
 
-def store_and_judge_spectrum(ctx, rng, result, tag, extra=None):
+def store_and_judge_spectrum(ctx, rng, result, tag, extra=None, binner_t=None, want_binner=False):
     from taurex import OutputSize
     from taurex.output.hdf5 import HDF5Output
-    binner, kind, decl = make_binner(rng, result[0])
+    binner, kind, decl = binner_t or make_binner(rng, result[0])
     size = SIZES[rng.integers(0, 3)]
     ctx.observe('binner:' + kind, 'size:' + size)
     wit = dict(binner=kind, output_size=size)
@@ -595,6 +595,8 @@ def store_and_judge_spectrum(ctx, rng, result, tag, extra=None):
     check_opens(ctx, log, fn, ['w'])
     judge_spectrum_group(ctx, content, '/Output/Spectra', binner, kind, decl, size, result, wit)
     os.remove(fn)
+    if want_binner:
+        return kind, size, (binner, kind, decl)
     return kind, size
 
 
@@ -605,7 +607,29 @@ def wl_synth_spectra(ctx, rng):
     flux = 10 ** rng.uniform(-6, -1, n)
     tau = np.exp(-10 ** rng.uniform(-3, 2, (nl, n)))
     result = (wn, flux, tau, None)
-    kind, size = store_and_judge_spectrum(ctx, rng, result, 'synthetic')
+    kind, size, bt = store_and_judge_spectrum(ctx, rng, result, 'synthetic', want_binner=True)
+    # the SAME binner object writes the output of further model results (the program does this once per contribution
+    # and a script once per model): native grids of the same size and end points but other interior points, then
+    # other sizes -- every stored group is judged like the first
+    for _ in range(int(rng.integers(0, 3))):
+        how = ['same-size-and-ends', 'same-size-and-ends', 'other-size'][rng.integers(0, 3)]
+        if how == 'same-size-and-ends' and n >= 3:
+            u = np.sort(rng.uniform(0, 1, n - 2))
+            for i in range(1, len(u)):
+                if u[i] <= u[i - 1] + 1e-9:
+                    u[i] = u[i - 1] + 1e-6
+            wn2 = np.concatenate([[wn[0]], wn[0] + (wn[-1] - wn[0]) * np.clip(u, 1e-6, 1 - 1e-6), [wn[-1]]])
+            if not np.all(np.diff(wn2) > 0):
+                continue
+        else:
+            n2 = int(rng.integers(4, 120))
+            wn2 = np.sort(rng.uniform(wn[0], wn[-1], n2))
+            wn2[0], wn2[-1] = wn[0], wn[-1]
+            if not np.all(np.diff(wn2) > 0):
+                continue
+        r2 = (wn2, 10 ** rng.uniform(-6, -1, len(wn2)), np.exp(-10 ** rng.uniform(-3, 2, (nl, len(wn2)))), None)
+        store_and_judge_spectrum(ctx, rng, r2, 'synthetic-same-binner', binner_t=bt)
+        ctx.observe('same-binner:' + how)
     ctx.sig('synth', kind, size, n, nl, float(wn[0]))
 
 
